@@ -317,7 +317,7 @@ func runInterp(c *engine.Ctx, focus string) {
 
 	o := &gen.Opts{T: p, Str: w.str, MaxSteps: 4, MaxDepth: 2, Unknown: true, ScalarStep: true, BareList: focus == "C04", TopExtras: true,
 		PipeEnv: true, BigMaps: p.Draw(3, "cfg:bigmaps") != 0, Signature: true, TypeKey: true, Aliases: true, NonStrEnv: p.Draw(3, "cfg:nonstr") == 2,
-		Timestamps: p.Draw(4, "cfg:ts") == 3, ShareSubtrees: focus == "C04" && p.Draw(2, "cfg:share") == 1}
+		Timestamps: p.Draw(4, "cfg:ts") == 3, ShareSubtrees: focus == "C04" && p.Draw(2, "cfg:share") == 1, LongPipelines: focus == "C04"}
 	var doc *gen.Node
 	if focus == "C10" {
 		// env-block centred documents: a long block, a few steps that use it
